@@ -106,7 +106,11 @@ class Gen:
                 self.w("%s  o.tok(\"S \" + (t_.empty() ? std::string(\"-\") : t_)); }" % pad)
         elif m.kind == "array":
             a = self.fresh("a")
-            self.w("%s{ auto %s = %s; o.A(%s, %s.data(), %s.size()); }" % (pad, a, getter, n, a, a))
+            self.w("%s{ auto %s = %s;" % (pad, a, getter))
+            if tagctx is None and "(c)" not in getter:
+                # the byte-typed raw() view must be bounded by the same buffer: read its last element first
+                self.w("%s  { auto r_ = %s.raw(); if(r_.size()) { volatile unsigned char x_ = static_cast<unsigned char>(r_[r_.size() - 1]); (void)x_; } if(r_.size() != %s.size()) o.err(\"raw().size()\"); }" % (pad, a, a))
+            self.w("%s  o.A(%s, %s.data(), %s.size()); }" % (pad, n, a, a))
         elif m.kind == "const":
             if m.const_value[0] == "num":
                 self.w("%so.K(%s, rt::bits(%s));" % (pad, n, getter))
@@ -171,7 +175,10 @@ class Gen:
             self.w("%s  o.end(); }" % pad)
         for d in L.data:
             dv = self.fresh("d")
-            self.w("%s{ auto %s = %s; o.D(%s, %s.size(), %s.data()); }" % (pad, dv, acc(d.name), cstr(d.name), dv, dv))
+            self.w("%s{ auto %s = %s;" % (pad, dv, acc(d.name)))
+            if mode == "ra":
+                self.w("%s  { auto r_ = %s.raw(); if(r_.size()) { volatile unsigned char x_ = static_cast<unsigned char>(r_[r_.size() - 1]); (void)x_; } }" % (pad, dv))
+            self.w("%s  o.D(%s, %s.size(), %s.data()); }" % (pad, cstr(d.name), dv, dv))
 
     # ----------------------------------------------------- tag name table
     def tagnames(self):
